@@ -24,6 +24,7 @@ THRESHOLDS = {
     # --- outcome of a call into the grid code, observed from outside (forked child): 1 = died (assert/sanitizer/signal)
     "no_crash": 0.5,
     "rejection_is_std_exception": 0.5,
+    "measurement_completed": 0.5,            # 1 = a call that returned in the probe child threw when repeated / later call threw
     # --- accepted tuple: validity (booleans exact)
     "sizes_consistent": 0.5,
     "radii_strictly_increasing": 0.5,
